@@ -662,6 +662,22 @@ theorem feeIn_mkReq_noPromo {s : State} (hn : NoPromo s) (id : CtxId) (b : Nat) 
   simp only
   rw [feeOf_noPromo s cons svc p _ h1 h2]
 
+/-- pausing touches neither the bank nor requests, markers, tallies or bindings -/
+theorem onPaused_ledger (t : State) (id : CtxId) (c : Ctx) (cause : String) :
+    (onPaused t id c cause).bank = t.bank ∧ (onPaused t id c cause).active = t.active ∧
+    (onPaused t id c cause).reqs = t.reqs ∧ (onPaused t id c cause).earned = t.earned ∧
+    (onPaused t id c cause).binds = t.binds := by
+  unfold onPaused; split <;> exact ⟨rfl, rfl, rfl, rfl, rfl⟩
+
+theorem escrow_pausedDel {s : State} (he : EscrowInv s) (id : CtxId) (c : Ctx) (cause : String) :
+    EscrowInv (delNew (onPaused s id c cause) id s.height) := by
+  obtain ⟨o1, o2, o3, o4, _⟩ := onPaused_ledger s id c cause
+  refine EscrowInv.of_frame ⟨?_, ?_, ?_, ?_⟩ he
+  · intro d; simp only [delNew]; rw [o1]
+  · simp only [delNew]; rw [o2]
+  · intro r _; simp only [delNew]; rw [o3]
+  · simp only [delNew]; rw [o4]
+
 theorem escrow_newBatch {s : State} (hw : WF s) (hd : DI s) (hn : NoPromo s) (he : EscrowInv s) (id : CtxId)
     (hm : AMap.get? s.newH id = some s.height) : EscrowInv (newBatch s id) := by
   have hnc : AMap.contains s.newH id = true := (contains_iff _ _).mpr ⟨_, hm⟩
@@ -674,7 +690,7 @@ theorem escrow_newBatch {s : State} (hw : WF s) (hd : DI s) (hn : NoPromo s) (he
   rw [hgc]
   split
   · split
-    · exact he
+    · exact escrow_pausedDel he id c _
     · rename_i provs total hfp
       split
       · unfold chargeAndStart
@@ -720,17 +736,8 @@ theorem escrow_newBatch {s : State} (hw : WF s) (hd : DI s) (hn : NoPromo s) (he
           have hcoins0 : coinsIn ([] : Coins) d = 0 := by simp [coinsIn, AMap.sumIf]
           rw [hl.1, b6, hbank, hA, hAs, hsame, hF]
           omega
-        · -- not paid: the partial debit never reaches the escrow
-          have hop : ∀ (t : State), (onPaused t id c).bank = t.bank ∧ (onPaused t id c).active = t.active ∧
-              (onPaused t id c).reqs = t.reqs ∧ (onPaused t id c).earned = t.earned := by
-            intro t; unfold onPaused; split <;> exact ⟨rfl, rfl, rfl, rfl⟩
-          obtain ⟨o1, o2, o3, o4⟩ := hop { s with bank := (debitCoins s.bank c.consumer (sortCoins total)).1 }
-          refine EscrowInv.of_frame ⟨?_, ?_, ?_, ?_⟩ he
-          · intro d; simp only [delNew]; rw [o1]
-            exact debitCoins_frame reqAcc c.consumer (Ne.symm hcons.2) _ _ d
-          · simp only [delNew]; rw [o2]
-          · intro r _; simp only [delNew]; rw [o3]
-          · simp only [delNew]; rw [o4]
+        · -- not paid: nothing moves
+          exact escrow_pausedDel he id c _
       · exact EscrowInv.of_frame ⟨fun _ => rfl, rfl, fun _ _ => rfl, rfl⟩ he
   · exact EscrowInv.of_frame ⟨fun _ => rfl, rfl, fun _ _ => rfl, rfl⟩ he
 
@@ -816,15 +823,13 @@ theorem newBatch_binds (s : State) (id : CtxId) : (newBatch s id).binds = s.bind
   unfold newBatch
   split
   · split
-    · rfl
+    · simp only [delNew]; exact (onPaused_ledger _ _ _ _).2.2.2.2
     · split
       · unfold chargeAndStart
         split
         · simp only [delNew, addExp, initiateRequests, setCtx]
           exact (mkRequests_core id _ _ _ _ _ 0 _).1.2.1
-        · simp only [delNew]
-          unfold onPaused
-          split <;> rfl
+        · simp only [delNew]; exact (onPaused_ledger _ _ _ _).2.2.2.2
       · rfl
   · rfl
 
@@ -960,6 +965,8 @@ theorem keeperCtx_ledger {s s' : State} {id : CtxId} {consumer : Addr}
     · cases h
     cases h; exact ⟨rfl, rfl, rfl, rfl, rfl⟩
   · unfold keeperStart at h
+    split at h
+    · cases h
     split at h
     · cases h
     split at h
